@@ -81,7 +81,7 @@ def dedup : List Term → List Term
 
 /-! ### Multi-term predicates (prefix, range, wildcard, fuzzy, explicit sets) -/
 
-/-- `fnmatch` pattern items: literal byte, `?`, `*`, `[seq]` / `[!seq]`. -/
+/-- `fnmatch` pattern items: literal character (code point), `?`, `*`, `[seq]` / `[!seq]`. -/
 inductive Glob where
   | lit (c : Nat)
   | any
@@ -110,6 +110,24 @@ def lev : List Nat → List Nat → Nat
     if a == b then lev s t
     else 1 + min (lev s t) (min (lev (a :: s) t) (lev s (b :: t)))
 termination_by s t => s.length + t.length
+
+/-- UTF-8 decoder state machine: `pending` continuation bytes are still expected for the code
+    point accumulated in `acc`. -/
+def utf8Go : Nat → Nat → List Nat → List Nat
+  | _, _, [] => []
+  | 0, _, b :: rest =>
+    if b < 192 then b :: utf8Go 0 0 rest
+    else if b < 224 then utf8Go 1 (b % 32) rest
+    else if b < 240 then utf8Go 2 (b % 16) rest
+    else utf8Go 3 (b % 8) rest
+  | n + 1, acc, b :: rest =>
+    if n = 0 then (acc * 64 + b % 64) :: utf8Go 0 0 rest
+    else utf8Go n (acc * 64 + b % 64) rest
+
+/-- The code points of a term (terms of text fields are valid UTF-8).  Wildcards (`?`, `[..]`)
+    and edit distance count characters, not bytes: whoosh matches them on
+    `field.from_bytes(term)`. -/
+def utf8Decode (t : List Nat) : List Nat := utf8Go 0 0 t
 
 /-- byte-lexicographic `a < b`. -/
 def bytesLt : List Nat → List Nat → Bool
@@ -143,8 +161,10 @@ def TermPred.test : TermPred → Term → Bool
     (match hi with
       | none => true
       | some h => if he then bytesLt t h else bytesLe t h)
-  | .glob pat, t => globMatch pat t
-  | .fuzzy w k p, t => (t.take p == w.take p) && decide (lev (t.drop p) (w.drop p) ≤ k)
+  | .glob pat, t => globMatch pat (utf8Decode t)
+  | .fuzzy w k p, t =>
+    ((utf8Decode t).take p == (utf8Decode w).take p) &&
+      decide (lev ((utf8Decode t).drop p) ((utf8Decode w).drop p) ≤ k)
   | .oneOf ts, t => ts.contains t
   | .all, _ => true
 
